@@ -1,4 +1,5 @@
 import TsVerif.C02.Lemmas
+import TsVerif.C02.LexLoop
 /-!
 # C02 — Every parse terminates with a well-formed tree that tiles the text
 
@@ -29,7 +30,11 @@ Clause → theorem
 * row/column = newline counting ....................................... `rowcol_by_newlines` (with
   `yields_total`, `extentOf_snoc`): if every LEAF's padding and size measure consecutive pieces of the
   text, every node's start/end computed by adding relative lengths is (offset, newline-counted point)
-* OPEN (judged on every real tree, not proved): termination of parsing; that the lexer's leaves do
+* termination, local argument ............................................ `lex_skip_progress`,
+  `lex_skip_enter`, `lexLoop_skipping_terminates`, `lex_terminates`: the retry/error-skip loop of
+  `ts_parser__lex` (port `LexLoop.lean`, lexers abstract) returns within `len − start + 4` rounds
+* OPEN (judged on every real tree, not proved): termination of the GLR driver (version stack,
+  recovery, cost pruning); that the lexer's leaves do
   measure the text (`Yields`, needs the lexer model); padding is skipped whitespace; literal tokens.
 
 Boundary conventions: positions are byte offsets of the start of a subtree's padding; the
@@ -503,6 +508,144 @@ theorem has_error_full_false :
   · decide
   · decide
   · decide
+
+/-! ## The local progress argument behind termination: the error-skip loop of `ts_parser__lex` -/
+
+/-- The loop invariant while an error is being skipped. -/
+def Skipping (E : LexEnv) (s : LexState) : Prop :=
+  s.errorMode = true ∧ s.skippedError = true ∧ s.cur = s.errorEnd ∧ s.cur ≤ E.len
+
+/-- `lex_skip_progress`: while an error is being skipped (`Skipping`: error mode, an error started,
+the lexer standing at the end of the skipped text, inside the document) every iteration of the
+loop of `ts_parser__lex` either returns (token found / ERROR at EOF) or re-establishes the
+invariant with the end of the skipped text at least one byte further. -/
+theorem lex_skip_progress (E : LexEnv) (hE : LexEnvOK E) (start : Nat) (s : LexState) (h : Skipping E s) :
+    match lexStep E start s with
+    | .inr _ => True
+    | .inl s' => Skipping E s' ∧ s.errorEnd < s'.errorEnd := by
+  obtain ⟨hm, hs, hc, hb⟩ := h
+  have hf := hE.attempt_forward s.cur true
+  have hbd := hE.attempt_bounded s.cur true hb
+  unfold lexStep
+  rw [hm]
+  by_cases hfound : (E.attempt s.cur true).1 = true
+  · simp [hfound]
+  · simp only [hfound, Bool.false_eq_true, if_false, Bool.not_true, hs, if_true]
+    by_cases heq : ((E.attempt s.cur true).2.1 == s.errorEnd) = true
+    · simp only [heq, if_true]
+      have heq' : (E.attempt s.cur true).2.1 = s.errorEnd := by simpa using heq
+      by_cases heof : (E.attempt s.cur true).2.1 ≥ E.len
+      · simp [heof]
+      · simp only [heof, if_false]
+        have hp := hE.advance_progress (E.attempt s.cur true).2.1 (by omega)
+        refine ⟨⟨rfl, rfl, rfl, hp.2⟩, ?_⟩
+        show s.errorEnd < E.advance (E.attempt s.cur true).2.1
+        omega
+    · simp only [heq, Bool.false_eq_true, if_false]
+      have hne : (E.attempt s.cur true).2.1 ≠ s.errorEnd := by simpa using heq
+      refine ⟨⟨rfl, rfl, rfl, hbd⟩, ?_⟩
+      show s.errorEnd < (E.attempt s.cur true).2.1
+      omega
+
+/-- Entering the skip: from error mode without a started error, one failed round either returns
+or establishes `Skipping`. -/
+theorem lex_skip_enter (E : LexEnv) (hE : LexEnvOK E) (start : Nat) (s : LexState)
+    (hm : s.errorMode = true) (hs : s.skippedError = false) (hb : s.cur ≤ E.len) :
+    match lexStep E start s with
+    | .inr _ => True
+    | .inl s' => Skipping E s' := by
+  have hf := hE.attempt_forward s.cur true
+  have hbd := hE.attempt_bounded s.cur true hb
+  have hst := hE.start_between s.cur true
+  unfold lexStep
+  rw [hm]
+  by_cases hfound : (E.attempt s.cur true).1 = true
+  · simp [hfound]
+  · simp only [hfound, Bool.false_eq_true, if_false, Bool.not_true, hs]
+    by_cases heq : ((E.attempt s.cur true).2.1 == (E.attempt s.cur true).2.2) = true
+    · simp only [heq, if_true]
+      by_cases heof : (E.attempt s.cur true).2.1 ≥ E.len
+      · simp [heof]
+      · simp only [heof, if_false]
+        have hp := hE.advance_progress (E.attempt s.cur true).2.1 (by omega)
+        exact ⟨rfl, rfl, rfl, hp.2⟩
+    · simp only [heq, Bool.false_eq_true, if_false]
+      exact ⟨rfl, rfl, rfl, hbd⟩
+
+/-- Once skipping, the loop returns within `len − errorEnd + 1` further iterations. -/
+theorem lexLoop_skipping_terminates (E : LexEnv) (hE : LexEnvOK E) (start : Nat) :
+    ∀ (fuel : Nat) (s : LexState), Skipping E s → E.len - s.errorEnd < fuel → (lexLoop E start fuel s).isSome = true
+  | 0, s, _, hf => by omega
+  | fuel + 1, s, h, hf => by
+    have hp := lex_skip_progress E hE start s h
+    unfold lexLoop
+    cases hstep : lexStep E start s with
+    | inr r => simp
+    | inl s' =>
+      rw [hstep] at hp
+      simp only at hp ⊢
+      have hle : s'.errorEnd ≤ E.len := by rw [← hp.1.2.2.1]; exact hp.1.2.2.2
+      exact lexLoop_skipping_terminates E hE start fuel s' hp.1 (by omega)
+
+/-- `lex_terminates`: from the initial state (normal mode at `start ≤ len`) the loop of
+`ts_parser__lex` returns after at most `len − start + 4` iterations, whatever the two lexers do,
+as long as they only move forward within the document and skipping a character consumes ≥ 1 byte. -/
+theorem lex_terminates (E : LexEnv) (hE : LexEnvOK E) (start : Nat) (hstart : start ≤ E.len) (errorMode : Bool) :
+    (lexLoop E start (E.len - start + 4) { errorMode := errorMode, skippedError := false, cur := start }).isSome = true := by
+  -- at most one round in normal mode, one round entering the skip, then the skipping bound
+  have enter : ∀ (fuel : Nat), E.len - start + 2 ≤ fuel →
+      (lexLoop E start (fuel + 1) { errorMode := true, skippedError := false, cur := start }).isSome = true := by
+    intro fuel hfuel
+    have he := lex_skip_enter E hE start { errorMode := true, skippedError := false, cur := start } rfl rfl hstart
+    unfold lexLoop
+    cases hstep : lexStep E start { errorMode := true, skippedError := false, cur := start } with
+    | inr r => simp
+    | inl s' =>
+      rw [hstep] at he
+      simp only at he ⊢
+      -- errorEnd of the new state is ≥ start
+      have hge : start ≤ s'.errorEnd := by
+        have hf := hE.attempt_forward start true
+        have hst := hE.start_between start true
+        unfold lexStep at hstep
+        simp only [Bool.not_true, Bool.false_eq_true, if_false] at hstep
+        split at hstep
+        · simp at hstep
+        · split at hstep
+          · split at hstep
+            · simp at hstep
+            · have hp := hE.advance_progress (E.attempt start true).2.1 (by omega)
+              simp only [Sum.inl.injEq] at hstep
+              rw [← hstep]; simp only; omega
+          · simp only [Sum.inl.injEq] at hstep
+            rw [← hstep]; simp only; omega
+      exact lexLoop_skipping_terminates E hE start fuel s' he (by omega)
+  cases errorMode with
+  | true =>
+    have := enter (E.len - start + 3) (by omega)
+    simpa using this
+  | false =>
+    unfold lexLoop
+    cases hstep : lexStep E start { errorMode := false, skippedError := false, cur := start } with
+    | inr r => simp
+    | inl s' =>
+      simp only
+      have hs' : s' = { errorMode := true, skippedError := false, cur := start } := by
+        unfold lexStep at hstep
+        simp only [Bool.not_false, if_true] at hstep
+        split at hstep
+        · simp at hstep
+        · simp only [Sum.inl.injEq] at hstep
+          exact hstep.symm
+      rw [hs']
+      exact enter (E.len - start + 2) (by omega)
+
+
+/-- Non-vacuity of `LexEnvOK`: a lexer that never finds a token and skips byte by byte. -/
+example : LexEnvOK { len := 5, attempt := fun p _ => (false, p, p), advance := fun p => p + 1 } :=
+  ⟨fun _ _ => Nat.le_refl _, fun _ _ h => h, fun _ _ => ⟨Nat.le_refl _, Nat.le_refl _⟩, fun p h => ⟨Nat.lt_succ_self p, h⟩⟩
+example : lexLoop { len := 5, attempt := fun p _ => (false, p, p), advance := fun p => p + 1 } 2 (5 - 2 + 4)
+    { errorMode := false, skippedError := false, cur := 2 } = some (.errorAtEof 2 5) := by decide
 
 /-! ## Non-vacuity: a two-level tree built by the port satisfies the hypotheses -/
 
